@@ -261,6 +261,43 @@ class C06:
                     break
             if not result[0]:
                 break
+        if result[0]:
+            # the same function in floating point, on a decimal grid (end points that are not exactly representable): the clauses of
+            # the statement that are exact -- 0 for extents that are disjoint or merely touch, 1 for an extent compared with itself,
+            # never outside [0, 1].  (An algebraically equal formula such as "durations minus span" fails here: 2.2e-16 for 0.1-0.2
+            # against 0.2-1.1, which the matcher treats as an overlap.)
+            grid = [k / 10 for k in range(0, 13)]
+            for s1, e1, s2, e2 in itertools.product(grid, repeat=4):
+                if s1 > e1 or s2 > e2:
+                    continue
+                disjoint = e1 <= s2 or e2 <= s1
+                same = (s1, e1) == (s2, e2) and e1 > s1
+                env = dict(zip(V, (s1, e1, s2, e2)))
+                val = None
+                for kind, lv, tm, e in outcomes:
+                    on = True
+                    for c in conjuncts(lv):
+                        cv = peval(c, env)
+                        if cv[0] != "const" or not cv[1]:
+                            on = False
+                            break
+                    if on:
+                        v = peval(tm, env) if kind == "return" else None
+                        val = v[1] if v is not None and v[0] == "const" and isinstance(v[1], (int, float)) and not isinstance(v[1], bool) else None
+                        break
+                if val is None:
+                    continue  # union 0 / outside the fragment here: decided above on the exact grid
+                where = {"geometry1": [s1, e1], "geometry2": [s2, e2]}
+                if disjoint and val != 0:
+                    result = (False, f"gives {val!r} for the time extents {where}, which are disjoint or merely touch: the affinity must be exactly 0 "
+                                     f"there (a positive value, however small, makes the matcher pair the two)", (e, where))
+                    break
+                if same and val != 1:
+                    result = (False, f"gives {val!r} for the extent {[s1, e1]} compared with itself: the affinity must be exactly 1", (e, where))
+                    break
+                if not (0 <= val <= 1):
+                    result = (False, f"gives {val!r} for the time extents {where}: outside [0, 1]", (e, where))
+                    break
         self._regions_n = n_regions
         self._regions_cache = (ts, result)
         return result
